@@ -26,6 +26,19 @@ ASSUMPTIONS = [
 TOL = Fraction(1, 10**11)
 
 
+def mpf_frac(v) -> Fraction:
+    """exact value of an mpmath number; values below 2^-20000 are taken as 0 (exp(-1e30) has an exponent of 1e30 bits:
+    converting it literally never ends)"""
+    import mpmath
+    v = mpmath.mpf(v)
+    if v == 0:
+        return Fraction(0)
+    man, exp = v.man_exp
+    if exp < -20000:
+        return Fraction(0)
+    return Fraction(int(man)) * (Fraction(2) ** int(exp)) if exp < 0 else Fraction(int(man) * 2 ** int(exp))
+
+
 def build_cases(rd, gen: Gen, ncases):
     cases = []
     for _ in range(ncases):
@@ -157,9 +170,12 @@ def correspondence(rep, ctx, ncases=None, oracle_kind="lean"):
         for n0, ts in ocases:
             if _time.time() > t_end:
                 break
-            sol = amaku_solution(view, n0, ts, digits=80)
-            encls.append({i: (Fraction(str(v)) - Fraction(1, 10**60) * abs(Fraction(str(v))),
-                              Fraction(str(v)) + Fraction(1, 10**60) * abs(Fraction(str(v)))) for i, v in sol.items()})
+            try:
+                sol = amaku_solution(view, n0, ts, digits=80, deadline=t_end)
+            except TimeoutError:
+                break
+            encls.append({i: (mpf_frac(v) - Fraction(1, 10**60) * abs(mpf_frac(v)),
+                              mpf_frac(v) + Fraction(1, 10**60) * abs(mpf_frac(v))) for i, v in sol.items()})
     bad = 0
     for j, k in enumerate(live):
         if j >= len(encls):
@@ -180,6 +196,9 @@ def correspondence(rep, ctx, ncases=None, oracle_kind="lean"):
                                "how_to_replay": "./check C01 --replay <this file>"}, True)
     bad += all_single_block(rep, ctx, gen)
     bad += subset_block(rep, ctx, gen)
+    if oracle_kind == "lean":
+        import synthetic
+        bad += synthetic.decay_block(rep, ctx, "c01/synthetic", kinds=("decay",))
     rep.corr["input_distribution"].update(gen.dist)
     rep.notes["mismatches"] = bad
 
@@ -269,8 +288,8 @@ def replay(body, ctx) -> bool:
     inv, n0n, ts, dec = run_real(rd, case)
     n0 = {view.index[nm]: v for nm, v in n0n.items()}
     sol = amaku_solution(view, n0, ts, digits=80)
-    encl = {i: (Fraction(str(v)) - Fraction(1, 10**60) * abs(Fraction(str(v))),
-                Fraction(str(v)) + Fraction(1, 10**60) * abs(Fraction(str(v)))) for i, v in sol.items()}
+    encl = {i: (mpf_frac(v) - Fraction(1, 10**60) * abs(mpf_frac(v)),
+                mpf_frac(v) + Fraction(1, 10**60) * abs(mpf_frac(v))) for i, v in sol.items()}
     msgs = []
     ok = judge_case(rd, view, case, n0n, ts, dec, encl, msgs.append)
     print("\n".join(msgs))
